@@ -132,6 +132,9 @@ func kindLetter(n datamodel.Node, err error) byte {
 	return 'x'
 }
 
+// looked up in every map on every dump, present or not (the model's probe_keys)
+var probeKeys = []string{"a", "b", "c", "k", "", "0", "1", "ab", "key", "z", "q", "new"}
+
 func tok(sb *strings.Builder, s string) {
 	if sb.Len() > 0 {
 		sb.WriteByte(',')
@@ -238,7 +241,11 @@ func dump(sb *strings.Builder, n datamodel.Node, depth int) {
 		for i, k := range keys {
 			ks[i] = kindLetter(n.LookupByString(k))
 		}
-		tok(sb, "?"+string(ks))
+		ps := make([]byte, len(probeKeys))
+		for i, k := range probeKeys {
+			ps[i] = kindLetter(n.LookupByString(k))
+		}
+		tok(sb, "?"+string(ks)+"/"+string(ps))
 	default:
 		tok(sb, "!1")
 	}
